@@ -9,6 +9,7 @@
 (* integer numerators over 2^Scale.                                           *)
 (***************************************************************************)
 EXTENDS Integers, Sequences, FiniteSets, SeqX
+CONSTANT ReferenceOnK1Line    \* TRUE: N(S_ref) of the Gassner cycles is read from the k_1 line also below the endurance limit (repaired code); FALSE: from the curve's own branch (pinned)
 CONSTANT OccupiedReference    \* TRUE: Gassner reference amplitude = largest OCCUPIED class (repaired code); FALSE: largest class (pinned)
 Inf == 1000000
 Scale == 35        \* instances keep every finite cycle exponent within 8..35 so that sums stay below 2^31
@@ -35,5 +36,5 @@ RefX(coll) == IF OccupiedReference THEN MaxOcc(coll) ELSE MaxAll(coll)
 GassnerElementaryDamageExp(c, coll) == c.k1 * (MaxOcc(coll) - RefX(coll))
 (* Haibach: A is formed with s = S / S_ref for the SAME reference as N(S_ref); it cancels iff N(S_ref) lies on the k1 branch *)
 GassnerHaibachDamageExp(c, coll) ==
-  LET r == RefX(coll) IN IF r >= c.a THEN 0 ELSE (c.k1 - 1) * (c.a - r)      \* reference below the endurance limit: (SD/S_ref)^(k1-1)
+  LET r == RefX(coll) IN IF ReferenceOnK1Line \/ r >= c.a THEN 0 ELSE (c.k1 - 1) * (c.a - r)      \* reference below the endurance limit: (SD/S_ref)^(k1-1)
 =============================================================================
